@@ -434,6 +434,13 @@ def _has_exact_specifier(marker: MarkerExpression) -> bool:
     ``~=`` has no mirror image, and a wildcard or pre/post/dev literal is not a
     candidate version the mirrored specifier would describe.
     """
+    if (
+        marker.name in MARKERS_REQUIRING_VERSION
+        and marker.name not in marker._VERSION_LIKE_MARKER_NAME
+    ):
+        # implementation_version: compared as a version when evaluated, as a
+        # plain string by its specifier
+        return False
     if not marker.reversed or marker.name not in marker._VERSION_LIKE_MARKER_NAME:
         return True
     if marker.op in ("in", "not in"):
